@@ -36,14 +36,26 @@ type rpcNode struct {
 
 func init() {
 	scenarios["c10_register"] = func(raw json.RawMessage) *vrt.Scenario {
-		return &vrt.Scenario{Name: "c10_register", Main: registerMain, FreeChoices: true, MaxSteps: 2_000_000, NoTimerAlt: true, Classify: sdClassify}
+		var p RegisterParams
+		_ = json.Unmarshal(raw, &p)
+		return &vrt.Scenario{Name: "c10_register", Main: func() { registerMain(p) }, FreeChoices: true, MaxSteps: 2_000_000, NoTimerAlt: true, Classify: sdClassify}
 	}
 }
 
-func registerMain() {
+// RegisterParams: InPhase - the start-up delay of the monitor loop is a multiple of the 5 s period both loops
+// share (as with the default rebalanceDelay), so the leader's heart-beat round and its monitor round fall on the
+// same instants; otherwise the monitor runs one second after the heart-beat.
+type RegisterParams struct {
+	InPhase bool `json:"in_phase"`
+}
+
+func registerMain(p RegisterParams) {
 	resetGlobals()
 	vrpc.Reset()
 	o := EnvOpts{RebalanceDelay: time.Second}
+	if p.InPhase {
+		o.RebalanceDelay = 5 * time.Second
+	}
 	o.defaults()
 	addr := func(id *models.Identity) string { return fmt.Sprintf("%s:%d", id.IP, sdPort) }
 	var hist []string
